@@ -205,6 +205,11 @@ def call_showbias(rows, ncols, metric, threshold, normalize, cfg, pos_label, **e
         df["sc"] = df["sc"].astype(np.uint8)
     if extra.pop("_shuffled_index", False):
         df.index = list(range(len(df)))[::-1]
+    # metric / normalisation names as literal, equal string built at run time or NumPy string (by the number of rows)
+    from mc import ordertypes as ot_
+
+    metric = ot_.string_kinds(metric)[len(rows) % 3][1]
+    normalize = None if normalize is None else ot_.string_kinds(normalize)[(len(rows) + 1) % 3][1]
     return showbias(df, "grp" if ncols == 1 else ["grp", "hh"], "lab", "sc", metric, normalize=normalize,
                     pos_label=pos_label, score_class=cfg[0], equal_class=cfg[1], threshold=threshold, **extra)
 
